@@ -16,6 +16,6 @@ Check(e) == IF InRange(e)
             ELSE e.res = "apply-err" /\ e.guard /\ e.after = e.before
 Init == l \in 1..N /\ phase = 0 /\ bad = FALSE
 Next == /\ phase = 0 /\ phase' = 1 /\ l' = l
-        /\ bad' = IF Check(Rec[l]) THEN FALSE ELSE PrintT(<<"REJECT", l, Rec[l].ev, Rec[l].variant, Rec[l].tag, Rec[l].res>>)
+        /\ bad' = IF Check(Rec[l]) THEN FALSE ELSE PrintT(<<"REJECT", l>>)
 Spec == Init /\ [][Next]_vars
 =============================================================================
